@@ -239,3 +239,47 @@ fn witness_c01_legal_moves_exact() {
     }
     assert_eq!(bad, 0);
 }
+
+/// "the same holds for the pseudo-legal generator followed by the make/validity filter that the search and perft use": the perft
+/// driver's node counts per root move equal the counts of a plain recursion over generate_legal_moves (itself compared with the
+/// mailbox oracle above), to depth 3 — on the tricky positions (pins through an en-passant capture included) and perft roots
+fn count_legal_lines(board: &mut Bitboard, depth: usize) -> u64 {
+    if depth == 0 { return 1; }
+    let mut n = 0;
+    for mv in board.generate_legal_moves() {
+        board.make(mv);
+        n += count_legal_lines(board, depth - 1);
+        board.unmake(mv);
+    }
+    n
+}
+
+#[test]
+fn witness_c01_perft_driver_counts_legal_lines() {
+    let mut bad = 0u32;
+    let roots = ["8/2p5/3p4/KP5r/1R3p1k/8/4P1P1/8 w - - 0 1", "r3k2r/p1ppqpb1/bn2pnp1/3PN3/1p2P3/2N2Q1p/PPPBBPPP/R3K2R w KQkq - 0 1",
+                 "8/8/8/8/k3p2R/8/3P4/4K3 w - - 0 1", "4k3/3p4/8/K3P2r/8/8/8/8 b - - 0 1", "8/8/8/8/R2p3k/8/4P3/4K3 w - - 0 1",
+                 "rnbqkbnr/pppppppp/8/8/8/8/PPPPPPPP/RNBQKBNR w KQkq - 0 1", "r3k2r/Pppp1ppp/1b3nbN/nP6/BBP1P3/q4N2/Pp1P2PP/R2Q1RK1 w kq - 0 1"];
+    for fen in TRICKY.iter().copied().chain(roots.iter().copied()) {
+        for depth in 1..=3usize {
+            let mut board = Bitboard::from_fen_string_unchecked(fen);
+            let got = board.perft(depth);
+            let mut expect: Vec<(String, u64)> = Vec::new();
+            for mv in board.generate_legal_moves() {
+                board.make(mv);
+                expect.push((mv.to_uci_string(), count_legal_lines(&mut board, depth - 1)));
+                board.unmake(mv);
+            }
+            let mut got: Vec<(String, u64)> = got.iter().map(|(m, n)| (m.to_uci_string(), *n)).collect();
+            got.sort(); expect.sort();
+            if got != expect {
+                if bad < 4 {
+                    let diff: Vec<_> = got.iter().filter(|g| !expect.contains(g)).collect();
+                    println!("FAILING-INPUT: fen={:?} perft({}) counts {:?} where the legal-move recursion gives {:?}", fen, depth, diff, expect.iter().filter(|e| !got.contains(e)).collect::<Vec<_>>());
+                }
+                bad += 1;
+            }
+        }
+    }
+    assert_eq!(bad, 0);
+}
